@@ -205,7 +205,7 @@ class EVQEIndividual(BaseIndividual):
         layers: list[EVQECircuitLayer] = list(individual.layers)[0 : len(individual.layers) - n_layers]
         # Get the parameter values for the remaining layers
         parameter_values: list[float] = list(individual.parameter_values)[
-            0 : individual.layer_parameter_indices[len(individual.layers) - n_layers][0]
+            0 : sum(layer.n_parameters for layer in layers)
         ]
 
         return EVQEIndividual(
